@@ -172,6 +172,17 @@ Theorem C02_peep_preserves : forall (S : Type) rd lv call ff e,
 Proof. exact peep_preserves_full. Qed.
 Print Assumptions C02_peep_preserves.
 
+(* SCOPE of C02_peep_preserves: integer-like types only.  Every SFlo / DFlo / BInt row of the two rule tables
+   names a builtin that has NO value in the model (`bval` is None on every operand list), so an expression
+   containing one has no value and the theorem says nothing about it - in particular nothing about the
+   float rows of foamBValOpInfoTableFast (-Qffold), whose generic identities x - x = 0, x / x = 1,
+   x * 0 = 0, x = x, not (a <= b) = (b < a) ... are false for NaN, infinities and signed zeros.  Those are
+   decided by running (tools/c02_float.py; known findings peep:fast-float-table:<shape>). *)
+Theorem C02_peep_float_rows_not_covered : forall r vs,
+  In r (peep_bvals_fast ++ peep_bvals_slow) -> outside_model_ty (btype r) = true -> bval (bname r) vs = None.
+Proof. exact float_rows_not_covered. Qed.
+Print Assumptions C02_peep_float_rows_not_covered.
+
 (* the same, for any fuel of peepAux, stated on the pair the model returns *)
 Theorem C02_peep_preserves_any_fuel : forall (S : Type) rd lv call ff e e',
   peep ff e = (e', true) -> forall s r, ev S rd lv call s e = Some r -> ev S rd lv call s e' = Some r.
